@@ -250,7 +250,9 @@ def load_known_findings(pid):
 
 
 def write_replay(pid, payload):
-    d = os.path.join(VERIF, 'replays')
+    # replays of runs against a scratch copy (VERIF_REPO=<dir>: seeded changes, mutation trials) are kept apart
+    # from those of /repo's own tree
+    d = os.path.join(VERIF, 'replays') if REPO == '/repo' else os.path.join(VERIF, 'replays', 'scratch', os.path.basename(REPO.rstrip('/')))
     os.makedirs(d, exist_ok=True)
     blob = json.dumps(payload, indent=1, sort_keys=True, default=str)
     h = hashlib.sha1(blob.encode()).hexdigest()[:10]
